@@ -51,11 +51,12 @@ Qed.
 Section Inline.
   Variable B : N.
   Variables max_array max_bulk : Z.
+  Variable max_depth : N.
   Let O := flat_ops B.
 
-  Theorem inline_decodes ws c w0 rest e fuel :
+  Theorem inline_decodes ws c w0 rest e fuel d :
     Forall word_ok ws -> join_sp ws = c :: w0 -> is_type_byte c = false -> (0 < fuel)%nat ->
-    decode frd O max_array max_bulk fuel (fs (join_sp ws ++ [CR; LF] ++ rest) e)
+    decode frd O max_array max_bulk max_depth fuel d (fs (join_sp ws ++ [CR; LF] ++ rest) e)
     = (Ok (Arr (Some (map (fun w => Bulk (Some w)) ws))), fs rest e).
   Proof.
     intros Hws Hj Hc Hf. destruct fuel as [|f]; [lia|].
@@ -88,6 +89,7 @@ Section Concat.
   Variable B : N.
   Hypothesis HB : 22 <= B.
   Variable max_array max_bulk : Z.
+  Variable max_depth : N.
   Variable mn mx : Z.
   Hypothesis Hmm : (mn <= mx)%Z.
   Hypothesis Hbulk0 : (0 <= max_bulk)%Z.
@@ -98,16 +100,16 @@ Section Concat.
   Let O := flat_ops B.
 
   Lemma decode_all_concat vs : wf_list max_array max_bulk vs ->
-    forall msgs dfuel e, (length vs < msgs)%nat -> (depth_list vs < dfuel)%nat ->
-    exists f', decode_all frd O max_array max_bulk msgs dfuel (fs (encode_list T vs) e) = (vs, e, f').
+    forall msgs dfuel e, (length vs < msgs)%nat -> (depth_list vs < dfuel)%nat -> N.of_nat (depth_list vs) <= max_depth ->
+    exists f', decode_all frd O max_array max_bulk max_depth msgs dfuel (fs (encode_list T vs) e) = (vs, e, f').
   Proof.
-    induction vs as [|v vs IH]; intros Hwf msgs dfuel e Hm Hd.
+    induction vs as [|v vs IH]; intros Hwf msgs dfuel e Hm Hd Hdm.
     - destruct msgs as [|m]; [cbn in Hm; lia|]. destruct dfuel as [|d]; [lia|].
       cbn [decode_all decode encode_list]. eexists. reflexivity.
     - destruct msgs as [|m]; [lia|]. cbn [wf_list depth_list length] in *. destruct Hwf as [Hv Hvs].
       cbn [decode_all encode_list]. unfold T, O in *.
-      rewrite (roundtrip B HB max_array max_bulk mn mx Hmm Hbulk0 Hbulk1 Harr0 Harr1 v Hv dfuel (encode_list (mk_itoa_tab mn mx) vs) e) by lia.
-      destruct (IH Hvs m dfuel e ltac:(lia) ltac:(lia)) as [f' Hf]. rewrite Hf.
+      rewrite (roundtrip B HB max_array max_bulk max_depth mn mx Hmm Hbulk0 Hbulk1 Harr0 Harr1 v Hv dfuel 0 (encode_list (mk_itoa_tab mn mx) vs) e) by lia.
+      destruct (IH Hvs m dfuel e ltac:(lia) ltac:(lia) ltac:(lia)) as [f' Hf]. rewrite Hf.
       eexists. reflexivity.
   Qed.
 
@@ -117,14 +119,15 @@ Section Concat.
     rewrite app_length. pose proof (encode_nonempty T v). pose proof (depth_lt_len T v). lia.
   Qed.
 
-  Theorem concat_any_chunking vs szs : wf_list max_array max_bulk vs ->
-    decode_all_chunked max_array max_bulk B szs EOF (encode_list T vs) = (vs, EOF).
+  Theorem concat_any_chunking vs szs : wf_list max_array max_bulk vs -> N.of_nat (depth_list vs) <= max_depth ->
+    decode_all_chunked max_array max_bulk max_depth B szs EOF (encode_list T vs) = (vs, EOF).
   Proof.
-    intros Hwf. rewrite chunking_independent by lia. unfold decode_all_flat.
+    intros Hwf Hdm. rewrite chunking_independent by lia. unfold decode_all_flat.
     destruct (len_encode_list vs) as [L1 L2].
-    destruct (decode_all_concat vs Hwf (S (N.to_nat (lenN (encode_list T vs)))) (S (N.to_nat (lenN (encode_list T vs)))) EOF) as [f' Hf].
+    destruct (decode_all_concat vs Hwf (S (N.to_nat (lenN (encode_list T vs)))) (depth_fuel max_depth) EOF) as [f' Hf].
     - rewrite lenN_length. lia.
-    - rewrite lenN_length. lia.
+    - unfold depth_fuel. lia.
+    - exact Hdm.
     - unfold fs, O in Hf. rewrite Hf. reflexivity.
   Qed.
 End Concat.
